@@ -65,9 +65,12 @@ Ltac v3_field :=
   repeat match goal with v : V3 |- _ => destruct v end; v3_goal;
   first [ ring | field; repeat split; nz_hyp
         | apply v3_eq; v3_goal; first [ ring | field; repeat split; nz_hyp ] ].
+Ltac abs_nz :=
+  first [ lra | assumption | apply Rabs_no_R0; nz_side | nz_side ].
+Ltac v3_field_abs := v3_destruct; unfold Rdiv; field; repeat split; abs_nz.
 Ltac tv_norms :=
   abs_consts; rewrite ?norm_sq;
-  first [ v3_finish | norm_atoms; abs_atoms; v3_nsatz ].
+  first [ v3_finish | norm_atoms; abs_atoms; v3_nsatz | norm_atoms; v3_field_abs ].
 """
 
 
